@@ -255,8 +255,8 @@ Theorem C01tok_reparse : forall ts, forallb token_ok ts = true ->
   forall v, ground v -> exists v',
     advance v (ser_all ts) = (v', flat_map acts_of ts) /\ ground v' /\
     forall r l rz,
-      process (mkParser v r l rz) (ser_all ts) =
-      (do '(r', evs) <- perform_all rz r (flat_map acts_of ts) []; Ok (mkParser v' r' (l ++ evs) rz)).
+      process (mkParser v r l rz []) (ser_all ts) =
+      (do '(r', evs) <- perform_all rz r (flat_map acts_of ts) []; Ok (mkParser v' r' (l ++ evs) rz [])).
 Proof. exact toks_ok_reparses. Qed.
 Print Assumptions C01tok_reparse.
 
@@ -266,8 +266,8 @@ Theorem C01tok_contents_formatted_bytes : forall s ts v,
   exists v',
     advance v (ser_all ts) = (v', flat_map acts_of ts) /\ ground v' /\
     forall r l rz,
-      process (mkParser v r l rz) (ser_all ts) =
-      (do '(r', evs) <- perform_all rz r (flat_map acts_of ts) []; Ok (mkParser v' r' (l ++ evs) rz)).
+      process (mkParser v r l rz []) (ser_all ts) =
+      (do '(r', evs) <- perform_all rz r (flat_map acts_of ts) []; Ok (mkParser v' r' (l ++ evs) rz [])).
 Proof. intros s ts v H1 H2 H3 E. exact (contents_formatted_reparses s ts H1 H2 H3 E v). Qed.
 Print Assumptions C01tok_contents_formatted_bytes.
 
@@ -276,8 +276,8 @@ Theorem C01tok_contents_diff_bytes : forall s p ts v,
   exists v',
     advance v (ser_all ts) = (v', flat_map acts_of ts) /\ ground v' /\
     forall r l rz,
-      process (mkParser v r l rz) (ser_all ts) =
-      (do '(r', evs) <- perform_all rz r (flat_map acts_of ts) []; Ok (mkParser v' r' (l ++ evs) rz)).
+      process (mkParser v r l rz []) (ser_all ts) =
+      (do '(r', evs) <- perform_all rz r (flat_map acts_of ts) []; Ok (mkParser v' r' (l ++ evs) rz [])).
 Proof. intros s p ts v H1 H2 H3 H4 E. exact (contents_diff_reparses s p ts H1 H2 H3 H4 E v). Qed.
 Print Assumptions C01tok_contents_diff_bytes.
 
